@@ -149,6 +149,8 @@ func ReplaceEnums(ana *analysis.Analysis, content string) string {
 			panic(fmt.Sprintf("enum type %s not found (in %s)", typeName, s))
 		}
 		enumValue := enum.Get(varName)
-		return fmt.Sprintf("%s /* %s.%s */", enumValue.Const.Val().ExactString(), typeName, varName)
+		value := enumValue.Const.Val().ExactString()
+		value = strings.ReplaceAll(value, `"`, `'`) // SQL uses single quote
+		return fmt.Sprintf("%s /* %s.%s */", value, typeName, varName)
 	})
 }
